@@ -288,10 +288,21 @@ def rule_hooks(ctx, rep):
             rep.touch(f)
             hooks = [i for i in f.all_insts() if i.op == "icall" and (lambda e: e[0] == "load" and e[1].endswith("urcu_atfork." + field))(ir.expr(f, i.d["fp"]))]
             pat.require(hooks, "%s: no call through urcu_atfork.%s" % (f.name, field))
-            none = [(t.blk.id, s_) for t, s_, a in pat.branch_edges_on(f, lambda a: a[0] == "eq" and a[2] == ("c", 0) and a[1][0] == "load" and a[1][1] == "@registered_rculfhash_atfork")]
-            pat.require(none, "%s: test of registered_rculfhash_atfork not found" % f.name)
-            rep.must_pass("C16.hooks", "%s.%s.every-return" % (fl, field), f, [f.entry()], None, lambda i: i in hooks, edge_ok=pat.block_edge_filter(none), to_exit=True,
-                          include_start=True, what="every returning path on which a hash-table fork hook is registered invokes urcu_atfork.%s" % field)
+            pat.require(pat.loads(f, glob="registered_rculfhash_atfork"), "%s: registered_rculfhash_atfork is not consulted" % f.name)
+            # edges on which it is *known* that no hook is registered (leaf atoms: the false edge of `atfork && x` is not one of them)
+            none = []
+            for b in f.blocks:
+                t = b.insts[-1]
+                if t.op != "br" or len(b.succ) != 2 or b.succ[0] == b.succ[1]:
+                    continue
+                e = ir.expr(f, t.args[0], 8)
+                for k, s_ in enumerate(t.d["succ"]):
+                    lv = []
+                    pat.leaf_atoms(e if e[0] in ("icmp", "bin", "select") else ("icmp", "ne", e, ("c", 0)), k == 0, lv)
+                    if any(a[0] == "eq" and a[2] == ("c", 0) and a[1][0] == "load" and a[1][1] == "@registered_rculfhash_atfork" for a in lv):
+                        none.append((b.id, s_))
+            rep.must_take_edge("C16.hooks", "%s.%s.every-return" % (fl, field), f, [f.entry()], None, none, to_exit=True, include_start=True, avoid=lambda i: i in hooks,
+                               what="every returning path invokes urcu_atfork.%s unless no hash-table fork hook is registered" % field)
             for h in hooks:
                 pr = ir.expr(f, h.args[0], 4) if h.args else None
                 rep.check(pr is not None and pr[0] == "load" and pr[1].endswith("urcu_atfork.priv"), "C16.hooks", "%s.%s.priv" % (fl, field), "hook receives the registered private pointer",
